@@ -199,6 +199,10 @@ def stepLine (_ : Unit) (line : String) : Unit × String :=
         let b ← parseHexNat? b
         let p ← parseInt? p
         pure (ftoaLine (f64toa F64.toF32 (⟨b⟩ : F64) (int8 p)))
+    | ["ftoa32", b, p] => do
+        let b ← parseHexNat? b
+        let p ← parseInt? p
+        pure (ftoaLine (igrisFtoa32 F64.toF32 (⟨b⟩ : F64) (int8 p)))
     | ["f32h", s, n, st, p] => do
         let s ← parseHexNat? s
         let n ← n.toNat?
